@@ -520,6 +520,12 @@ def judge_inverse(mon: str, where: str, op: Any, inv: Any) -> None:
                      ((o.mask,) if type(o).__name__ == 'PackOperator' else ()))):
         LOG.skipped(mon, 'lazy-operand-boolean-mask')  # cannot be traced by the solver (see C18)
         return
+    if lazy and any(type(getattr(o, 'config', None) and o.config.solver).__name__ == 'BiCGStab' for o in _all_ops(inv)
+                    if type(o).__name__ == 'InverseOperator'):
+        # lineax's BiCGStab breaks down (NaN) on right-hand sides it solves in one step - basis vectors that are
+        # eigenvectors, zero vectors; that is the dependency's behaviour: judged on random right-hand sides only
+        LOG.skipped(mon, 'lazy-bicgstab-basis-vectors')
+        return
     if lazy:
         # the solver-based inverse is only claimed for symmetric positive-definite operands of
         # bounded condition number
@@ -545,6 +551,14 @@ def judge_inverse(mon: str, where: str, op: Any, inv: Any) -> None:
                       expr=dense.describe(op), mi=np.array2string(mi, precision=4, threshold=80))
         return
     tol = dense.tol_for(op, inv) * max(1.0, cond)
+    if kind == 'singular' and np.count_nonzero(m - np.diag(np.diag(m))) == 0:
+        d = np.diag(m)
+        ref = np.diag(np.where(d != 0, 1.0 / np.where(d != 0, d, 1.0), 0.0))   # Moore-Penrose for a diagonal matrix
+        rtol = 1e-5 if dense.tol_for(op, inv) > 1e-9 else 1e-11
+        if not np.allclose(mi, ref, rtol=rtol, atol=0):
+            LOG.violation('C06', mon, f'{where}/pseudo-inverse', 'not the Moore-Penrose pseudo-inverse (reciprocal of every '
+                          'non-zero entry, zero elsewhere)', expr=dense.describe(op), d=d.tolist(), got=np.diag(mi).tolist())
+        return
     if kind == 'singular':
         ref = np.linalg.pinv(m)
         ok, err = dense.close(ref, mi, tol)
@@ -553,6 +567,14 @@ def judge_inverse(mon: str, where: str, op: Any, inv: Any) -> None:
                           f'(rel err {err:.3g})', expr=dense.describe(op),
                           m=np.array2string(m, precision=4, threshold=80),
                           mi=np.array2string(mi, precision=4, threshold=80))
+        return
+    if kind == 'closed-form' and np.count_nonzero(m - np.diag(np.diag(m))) == 0:
+        # diagonal operand: every entry is inverted on its own, whatever the dynamic range of the others
+        ref = np.diag(1.0 / np.diag(m))
+        rtol = 1e-5 if dense.tol_for(op, inv) > 1e-9 else 1e-11
+        if not np.allclose(mi, ref, rtol=rtol, atol=0):
+            LOG.violation('C06', mon, f'{where}/diagonal-entries', 'inverse of a diagonal operator is not the entrywise reciprocal',
+                          expr=dense.describe(op), d=np.diag(m).tolist(), got=np.diag(mi).tolist())
         return
     eye = np.eye(m.shape[0])
     ok1, e1 = dense.close(mi @ m, eye, tol)
@@ -764,6 +786,14 @@ def h_mvref(orig: Any, self: Any, x: Any) -> Any:
     return y
 
 
+def h_init(orig: Any, self: Any, *args: Any, **kwargs: Any) -> Any:
+    from .core import record_client_args, unwrap
+
+    out = orig(self, *args, **kwargs)
+    record_client_args(self, unwrap(orig), args, kwargs)
+    return out
+
+
 # ---- installation ----------------------------------------------------------------------------------
 
 
@@ -787,6 +817,8 @@ def install() -> dict[str, int]:
                 counts['methods'] += 1
         if wrap(cls, 'mv', 'mvref', h_mvref):
             counts['methods'] += 1
+        if wrap(cls, '__init__', 'ctor', h_init):
+            counts['methods'] += 1
     binary, nary = all_rule_classes()
     for rc in binary:
         if wrap(rc, 'apply', 'reduce', h_binary_rule):
@@ -794,5 +826,7 @@ def install() -> dict[str, int]:
     for rc in nary:
         if wrap(rc, 'apply', 'reduce', h_nary_rule):
             counts['rules'] += 1
+    from .core import enable
+    enable('ctor')
     _installed[0] = True
     return counts
